@@ -518,6 +518,12 @@ def auto_discharge(prog, fn, v, op, a, b):
                     return 'shift by the number of trailing/leading zeros of a value that is not 0 on this path: below its bit width'
                 if y is not None and g == 'Ne' and strip(x).is_const(0) and same_val(y, arg):
                     return 'shift by the number of trailing/leading zeros of a value that is not 0 on this path: below its bit width'
+                # the count itself tested against the width (`if pos == u64::BITS { return None }`): it is the width only for 0
+                for p_, q_ in ((x, y), (y, x)):
+                    if y is not None and g == 'Ne' and q_ is not None and strip(q_).is_const(wa) and same_val(p_, sb):
+                        return 'shift by a count of trailing/leading zeros that is not the full width on this path: below the bit width'
+                    if y is not None and g == 'Lt' and p_ is x and strip(q_).is_const(wa) and same_val(p_, sb):
+                        return 'shift by a count of trailing/leading zeros tested below the bit width'
     if op == 'Sub' and sb.is_const(1) and sa.kind == 'load' and fn.self_adt in prog.tree_adts and prog.self_field(sa) and len(prog.self_field(sa)) == 1:
         # an entry counter stepped down in the removal: it counts the entries (ENTITY's counter discipline), and the entry that
         # is being removed is one of them
